@@ -80,6 +80,7 @@ Convert(h, amt, fr, fa, tr, ta) ==
 ZeroBal == [a \in Addrs |-> [t \in Assets |-> NZero]]
 EmptyFn == [x \in {} |-> 0]
 InitState == [bal |-> ZeroBal, rates |-> EmptyFn, holding |-> <<>>, rel |-> {}, st |-> EmptyFn, ent |-> EmptyFn,
+              cache |-> [h |-> 0, d |-> <<>>],
               bank |-> EmptyFn, snapCur |-> ZeroBal, snapPast |-> ZeroBal]
 
 Bal(S, a, t) == IF a \in Addrs /\ t \in Assets THEN S.bal[a][t] ELSE NZero
@@ -94,21 +95,55 @@ LastRated(S, h) == LET R == {i \in DOMAIN S.rates : i < h} IN
 
 Rate(r, t) == IF t \in DOMAIN r THEN r[t] ELSE NZero
 
-\* ------------------------------------------------------------------ averages (PIP-10), by height
+\* ------------------------------------------------------------------ averages (PIP-10)
+\* The averaging window for the rates of height r is a function of the recorded rates ONLY (C09):
+\* it is what a node that has been running without interruption holds, namely the last P rated
+\* heights of [g - P + 1, r], where [g, r] is the maximal run of consecutively rated heights ending
+\* at r (when that run is at least P long this is simply [r - P + 1, r]).
 AvgLo(r) == IF r - AvgPeriod + 1 < 1 THEN 1 ELSE r - AvgPeriod + 1
-AvgHeights(S, r) == {i \in DOMAIN S.rates : i >= AvgLo(r) /\ i <= r}
-AvgOf(S, r, t) ==
-  LET H == AvgHeights(S, r)
-      n == Cardinality(H)
-      zeros == Cardinality({i \in H : NIsZero(Rate(S.rates[i], t))})
-      missing == zeros + (AvgPeriod - n)
+AvgHeights(S, r) == {i \in DOMAIN S.rates : i >= AvgLo(r) /\ i <= r}          \* window by height
+RunStart(S, r) == LET G == {g \in 1..r : \A i \in g..r : Rated(S, i)} IN
+                  IF G = {} THEN r ELSE CHOOSE g \in G : \A x \in G : g <= x
+RECURSIVE LastN(_, _)
+LastN(d, n) == IF Len(d) > n THEN LastN(Tail(d), n) ELSE d
+RECURSIVE SortedSeq(_)
+SortedSeq(H) == IF H = {} THEN <<>> ELSE LET m == CHOOSE x \in H : \A y \in H : x <= y IN <<m>> \o SortedSeq(H \ {m})
+AvgWindow(S, r) ==
+  LET g == RunStart(S, r)
+      lo == IF g - AvgPeriod + 1 < 1 THEN 1 ELSE g - AvgPeriod + 1
+  IN  IF r - g + 1 >= AvgPeriod THEN [i \in 1..AvgPeriod |-> r - AvgPeriod + i]
+      ELSE LastN(SortedSeq({i \in DOMAIN S.rates : i >= lo /\ i <= r}), AvgPeriod)
+\* average over a sequence of rated heights d: zero-valued rates and missing heights count as missing;
+\* fewer than P/2 usable values => 0 (conversions of that asset are refused)
+AvgOver(S, d, t) ==
+  LET n == Len(d)
+      I == 1..n
+      zeros == Cardinality({i \in I : NIsZero(Rate(S.rates[d[i]], t))})
+      missing == zeros + (IF n < AvgPeriod THEN AvgPeriod - n ELSE 0)
   IN  IF n = 0 \/ AvgPeriod - missing < AvgPeriod \div 2 THEN NZero
-      ELSE NDiv(SumSet([i \in H |-> Rate(S.rates[i], t)], H), NOfNat(n))
-Averages(S, r) == [t \in Assets |-> AvgOf(S, r, t)]
+      ELSE NDiv(SumSet([i \in I |-> Rate(S.rates[d[i]], t)], I), NOfNat(n))
+Averages(S, r) == LET d == AvgWindow(S, r) IN [t \in Assets |-> AvgOver(S, d, t)]
+
+\* The averages cache as the implementation (before the repair) maintains it (node/average.go): asked for height r,
+\*   same height      -> unchanged
+\*   next height      -> drop from the front until fewer than P entries remain, append r (trim by COUNT)
+\*   anything else    -> reload the rated heights of [r-P+1, r]            (window by HEIGHT)
+\* An uninterrupted run of this equals AvgWindow; after a restart (cache empty) the reload by height
+\* differs when the window contains unrated blocks (deviation DevAvgWindowByCount, C09).
+RECURSIVE TrimTo(_, _)
+TrimTo(d, n) == IF Len(d) >= n /\ Len(d) > 0 THEN TrimTo(Tail(d), n) ELSE d
+EmptyCache == [h |-> 0, d |-> <<>>]
+CacheStep(S, c, r) ==
+  IF c.h = r THEN c
+  ELSE IF c.h + 1 = r THEN [h |-> r, d |-> IF Rated(S, r) THEN Append(TrimTo(c.d, AvgPeriod), r) ELSE TrimTo(c.d, AvgPeriod)]
+  ELSE [h |-> r, d |-> SortedSeq(AvgHeights(S, r))]
+AveragesFromCache(S, c) == [t \in Assets |-> AvgOver(S, c.d, t)]
 
 \* ------------------------------------------------------------------ authorisation (C05)
+\* (deviation DevRcdeRecoveryByte: the implementation ignores the recovery byte of an RCD-e signature,
+\*  which is nevertheless part of the entry hash, so an altered copy passes as a new valid entry)
 Authorized(e, h) == /\ e.canon
-                    /\ e.auth = "Valid"
+                    /\ (e.auth = "Valid" \/ (e.auth = "RecoveryByteAltered" /\ "DevRcdeRecoveryByte" \in Deviations))
                     /\ (e.key = "rcde" => h > Act("RCDe"))
 
 HasConv(e)    == \E i \in 1..Len(e.txs) : e.txs[i].kind = "conv"
